@@ -1,8 +1,8 @@
 SPECIFICATION HSpec
 CONSTANTS
-  Tips = {"a", "b", "c", "d", "e"}
-  BMod = 29
-  BRem = 7
+  Tips = {"a", "b", "c", "d"}
+  BMod = 1
+  BRem = 0
 INVARIANT ResultsAreTrees
 PROPERTY BifurcatingResolves
 PROPERTY RenamePreservesDistance
